@@ -10,13 +10,40 @@ import (
 	"verifharness/refttlv"
 )
 
-func ToValue(n *refttlv.Node) ttlv.Value {
+func ToValue(n *refttlv.Node) ttlv.Value { return toValue(n, false) }
+
+// ToValueNil is ToValue with every empty structure and empty byte string held the way Go's zero values hold them:
+// a nil ttlv.Struct and a nil []byte. They are the same KMIP values (present, of length 0).
+func ToValueNil(n *refttlv.Node) ttlv.Value { return toValue(n, true) }
+
+// HasEmpty reports whether the tree has an empty structure or an empty byte string.
+func HasEmpty(n *refttlv.Node) bool {
+	switch n.Type {
+	case refttlv.TStructure:
+		if len(n.Kids) == 0 {
+			return true
+		}
+		for _, k := range n.Kids {
+			if HasEmpty(k) {
+				return true
+			}
+		}
+	case refttlv.TByteString:
+		return len(n.S) == 0
+	}
+	return false
+}
+
+func toValue(n *refttlv.Node, nilEmpty bool) ttlv.Value {
 	v := ttlv.Value{Tag: int(n.Tag)}
 	switch n.Type {
 	case refttlv.TStructure:
-		s := ttlv.Struct{}
+		var s ttlv.Struct
+		if !nilEmpty {
+			s = ttlv.Struct{}
+		}
 		for _, k := range n.Kids {
-			s = append(s, ToValue(k))
+			s = append(s, toValue(k, nilEmpty))
 		}
 		v.Value = s
 	case refttlv.TInteger:
@@ -32,7 +59,11 @@ func ToValue(n *refttlv.Node) ttlv.Value {
 	case refttlv.TTextString:
 		v.Value = string(n.S)
 	case refttlv.TByteString:
-		v.Value = append([]byte{}, n.S...)
+		if nilEmpty && len(n.S) == 0 {
+			v.Value = []byte(nil)
+		} else {
+			v.Value = append([]byte{}, n.S...)
+		}
 	case refttlv.TDateTime:
 		v.Value = time.Unix(n.I, 0)
 	case refttlv.TInterval:
